@@ -150,6 +150,114 @@ pub fn inject(w: &mut World, ctx: &mut Ctx, victim: usize) -> Outcome {
     Ok(())
 }
 
+/// Scripted live session with reassemblies in progress; returns the world and the pids of genuine packets
+/// (one per kind) that are still in flight towards the victim client, plus one ack travelling to the server.
+fn scripted() -> Result<(World, Vec<usize>), Fail> {
+    let chans = vec![
+        Chan { id: 0, kind: Kind::Unreliable, max_mem: 100_000, resend_ms: 100 },
+        Chan { id: 1, kind: Kind::Ordered, max_mem: 100_000, resend_ms: 100 },
+        Chan { id: 2, kind: Kind::Unordered, max_mem: 100_000, resend_ms: 100 },
+    ];
+    let cfg = WorldCfg { bytes_per_tick: 1_000_000, s2c: chans.clone(), c2s: chans, n_clients: 2 };
+    let mut w = World::new(cfg, Oracles { content: true, memory: true, exclude_clients: vec![0], ..Default::default() });
+    let d = Dir { client: 0, to_client: true };
+    // bystander traffic
+    let b = Dir { client: 1, to_client: true };
+    w.send(b, 1, 3000, true, 0)?;
+    w.send(b, 2, 40, true, 0)?;
+    // victim traffic: packed small reliable, sliced reliable (ordered and unordered), small and sliced unreliable
+    for _ in 0..3 {
+        w.send(d, 1, 30, true, 0)?;
+    }
+    w.send(d, 1, 2 * SLICE + 7, true, 0)?;
+    w.send(d, 2, 2 * SLICE + 9, true, 0)?;
+    w.send(d, 0, 20, true, 0)?;
+    w.send(d, 0, 21, true, 0)?;
+    w.send(d, 0, 2 * SLICE + 11, true, 0)?;
+    w.advance(16);
+    let pids = w.flush(d)?;
+    for pid in w.flush(b)? {
+        w.enqueue(pid, 0);
+    }
+    // hand over the first slice of every sliced message (reassemblies in progress) and keep one packet of each kind back
+    let mut samples: Vec<usize> = vec![];
+    let mut seen_kinds = std::collections::BTreeSet::new();
+    for &pid in pids.iter() {
+        let (kind, first_slice) = match &w.packets[pid].info {
+            PInfo::SmallRel { .. } => (0, false),
+            PInfo::SmallUnrel { .. } => (1, false),
+            PInfo::RelSlice { ch, idx, .. } => (2 + *ch as usize * 10, *idx == 0),
+            PInfo::UnrelSlice { idx, .. } => (3, *idx == 0),
+            _ => (9, false),
+        };
+        if first_slice {
+            w.handover(pid)?;
+        } else if seen_kinds.insert(kind) {
+            samples.push(pid);
+        } else {
+            w.enqueue(pid, 0);
+        }
+    }
+    // an ack packet travelling from the victim client to the server
+    let acks = w.flush(d.rev())?;
+    if let Some(&a) = acks.last() {
+        samples.push(a);
+    }
+    Ok((w, samples))
+}
+
+/// Every truncation of, and every value of each of the first 24 bytes of, genuine packets of every kind, injected into a
+/// live session whose channels hold reassemblies in progress; afterwards the genuine traffic continues.
+fn tamper_enum(index: u64, ctx: &mut Ctx) -> Outcome {
+    let (mut w, samples) = scripted()?;
+    let per: u64 = 1300 + 24 * 256;
+    let s = (index / per) as usize;
+    let k = (index % per) as usize;
+    let Some(&pid) = samples.get(s) else { return Ok(()) };
+    let mut bytes = w.packets[pid].bytes.clone();
+    if k < 1300 {
+        if k >= bytes.len() {
+            return Ok(());
+        }
+        bytes.truncate(k);
+    } else {
+        let i = (k - 1300) / 256;
+        let v = ((k - 1300) % 256) as u8;
+        if i >= bytes.len() || bytes[i] == v {
+            return Ok(());
+        }
+        bytes[i] = v;
+    }
+    ctx.op(&(s, k));
+    ctx.nontrivial = true;
+    let d = w.packets[pid].dir;
+    let hp = w.packets.len();
+    w.packets.push(PktRec { dir: d, bytes, seq: u64::MAX, info: PInfo::Undecodable, sent_at_ms: w.now_ms, flush_no: u64::MAX, handed: 0, last_handed_ms: 0, hostile: true });
+    w.hostile_seen[0] = true;
+    w.handover(hp)?;
+    w.step_check()?;
+    // the genuine packets follow, the session goes on
+    for &p in samples.iter() {
+        w.handover(p)?;
+    }
+    w.step_check()?;
+    let mut none = |_: &mut World, _: &mut Ctx| -> Outcome { Ok(()) };
+    for _ in 0..6 {
+        heal_tick(&mut w, ctx, &mut none)?;
+    }
+    // the bystander is untouched
+    for to_client in [false, true] {
+        let b = Dir { client: 1, to_client };
+        if let Some(r) = w.sender_reason(b) {
+            return Err(Fail::new("bystander_disconnected", format!("the well-behaved second connection was disconnected: {r:?}")));
+        }
+        if w.outstanding(b).1 != 0 {
+            return Err(Fail::new("bystander_stalled", "the well-behaved second connection did not receive its messages"));
+        }
+    }
+    Ok(())
+}
+
 impl Property for C06 {
     fn id(&self) -> &'static str {
         "C06"
@@ -158,7 +266,7 @@ impl Property for C06 {
         "exploration"
     }
     fn rule(&self) -> String {
-        "A case = live renet server with a victim and a bystander connection (and their clients) running generated honest traffic under faults, interleaved with injections into either endpoint of the victim connection. Injected bytes: field-targeted packets from the harness's own raw writer (every kind; sequence / message id / slice index / slice count / declared length at 0, 1, cursor+-1, count-1, count, count+1, 10^6, 10^6+1, 2^30, 2^62-1; payload 0/1/1199/1200/1201; slices aimed at a message in reassembly with a contradicting count or an index beyond it; ack packets with reversed/overlapping/huge/10^4 ranges), mutations/truncations/splices of genuine packets just captured, raw bytes; and bursts of 60-180 well-formed empty packets whose sequence numbers are pairwise non-adjacent (ascending / descending / rotated, steps 2 .. 2^31), after which the endpoint must still produce its packets. Oracles: no call unwinds (overflow checks on); a disconnected endpoint reports a reason; all later calls on the victim and on the bystander return normally; after every call 0 <= used <= max on every receive and send channel of both connections; the bystander keeps the C01/C02/C03 content oracles, is never disconnected and gets everything within the liveness bound. Non-trivial: an injection that parses and reaches a channel holding buffered or partially reassembled data. Distinct = hash of the decoded operation trace.".into()
+        "A case = live renet server with a victim and a bystander connection (and their clients) running generated honest traffic under faults, interleaved with injections into either endpoint of the victim connection. Injected bytes: field-targeted packets from the harness's own raw writer (every kind; sequence / message id / slice index / slice count / declared length at 0, 1, cursor+-1, count-1, count, count+1, 10^6, 10^6+1, 2^30, 2^62-1; payload 0/1/1199/1200/1201; slices aimed at a message in reassembly with a contradicting count or an index beyond it; ack packets with reversed/overlapping/huge/10^4 ranges), mutations/truncations/splices of genuine packets just captured, raw bytes; and bursts of 60-180 well-formed empty packets whose sequence numbers are pairwise non-adjacent (ascending / descending / rotated, steps 2 .. 2^31), after which the endpoint must still produce its packets. Enumerated on a scripted session with reassemblies in progress on three channels: every truncation of, and every value of each of the first 24 bytes of, a genuine packet of every kind. Oracles: no call unwinds (overflow checks on); a disconnected endpoint reports a reason; all later calls on the victim and on the bystander return normally; after every call 0 <= used <= max on every receive and send channel of both connections; the bystander keeps the C01/C02/C03 content oracles, is never disconnected and gets everything within the liveness bound. Non-trivial: an injection that parses and reaches a channel holding buffered or partially reassembled data. Distinct = hash of the decoded operation trace.".into()
     }
     fn assumptions(&self) -> Vec<String> {
         vec!["channel ids used by the application exist (the API documents a panic otherwise)".into(), "message contents on the victim connection are not judged: at this layer whoever can inject packets is the peer".into()]
@@ -168,6 +276,14 @@ impl Property for C06 {
     }
     fn required_labels(&self) -> Vec<&'static str> {
         vec!["inject_reached_state", "inject_contradicting_slice", "inject_parsed_ack", "inject_unparsed", "victim_disconnected", "healed_complete", "inject_sequence_burst"]
+    }
+    fn enums(&self, _tier: Tier) -> Vec<(&'static str, u64)> {
+        // 7 sample packets (small reliable, small unreliable, ordered slice, unordered slice, unreliable slice, ack) x
+        // (every truncation + 256 values of each of the first 24 bytes)
+        vec![("tamper_genuine_packets", 7 * (1300 + 24 * 256))]
+    }
+    fn run_enum(&self, _name: &str, index: u64, ctx: &mut Ctx) -> Outcome {
+        tamper_enum(index, ctx)
     }
     fn run_choices(&self, ctx: &mut Ctx) -> Outcome {
         let (cfgspec, ops) = spec(ctx.tier);
